@@ -78,7 +78,7 @@ func c04() []*Ob {
 					}
 				}
 			}},
-		{Prop: "C04", ID: "C04.2", Engine: "INDEX", Floor: 2,
+		{Prop: "C04", ID: "C04.2", Engine: "INDEX", Floor: 1,
 			Desc: "the result of a binary search over [lo, hi+1] (util.BinSearchInRange / sort.Search) is compared against a bound before it is used to read an element of the ID table (GetMID/GetRID) on the fetch path",
 			Check: func(c *Ctx) {
 				roots, ok := c.Fns("(*fracmanager.Fetcher).FetchDocs")
@@ -134,7 +134,7 @@ func c04() []*Ob {
 				}
 				c.Count("search_sites", n)
 			}},
-		{Prop: "C04", ID: "C04.3", Engine: "DOM+OWN", Floor: 3,
+		{Prop: "C04", ID: "C04.3", Engine: "DOM+OWN", Floor: 1,
 			Desc: "a fraction's panic becomes the batch error: fracmanager.fracFetch defers a closure that calls recover and assigns the returned error; it is the only caller of DataProvider.Fetch in fracmanager, and fetchDocsAsync reaches fractions only through it",
 			Check: func(c *Ctx) {
 				fn := c.Fn("fracmanager.fracFetch")
@@ -236,7 +236,7 @@ func c04() []*Ob {
 					c.Violation("alias:FetchDocs:ids:"+FuncName(sk.Instr.Parent()), sk.Instr.Pos(), "the id list passed to FetchDocs is modified in place (%s in %s): the caller still uses it to label the fetched documents, so documents are returned under other ids", sk.How, FuncName(sk.Instr.Parent()))
 				}
 			}},
-		{Prop: "C04", ID: "C04.4", Engine: "DOM+PROV", Floor: 5,
+		{Prop: "C04", ID: "C04.4", Engine: "DOM+PROV", Floor: 4,
 			Desc: "absent means an empty entry at its own position: GroupDocsOffsets skips DocPosNotFound without touching the groups; FetchDocs writes a fraction's result only at reversPos[id] and only when the document was found; IndexFetch writes res[dst] for grouped positions only; docsStream.Next hands out exactly one element per call",
 			Check: func(c *Ctx) {
 				if fn := c.Fn("seq.GroupDocsOffsets"); fn != nil {
